@@ -42,6 +42,9 @@ CATALOGUE = [
     ('mid', 'nop', [], True),
     ('m2', 'ldi', [('reg', 'a'), '9'], True),
     ('dl', '.byte', ['7'], False),
+    ('sc', '.byte', ['1', "';'", '4'], False),          # a semicolon inside a character literal / string is not a comment
+    ('ms', '.cstr', ['"a;b"'], False),
+    (None, '.byte', ['"x;y"'], False),
 ]
 HEADER = [('lab', None, [], False), (None, 'nop', [], True)]
 FOOTER = [('nop_x', 'nop', [], True)]
